@@ -92,3 +92,22 @@ Definition jset_field (name : string) (v : json) (j : json) : option json :=
                 end
   | _ => None
   end.
+
+(* remove the first field of that name *)
+Fixpoint jremove (k : string) (kvs : list (string * json)) : list (string * json) :=
+  match kvs with
+  | [] => []
+  | (k', x) :: t => if String.eqb k' k then t else (k', x) :: jremove k t
+  end.
+
+(* clear one field of an object (FieldClearer) *)
+Definition jclear_field (name : string) (j : json) : option json :=
+  match j with JObj kvs => Some (JObj (jremove name kvs)) | _ => None end.
+
+(* remove the field at path ++ [name]; nothing is created *)
+Definition jclear (ps : list part) (name : string) (j : json) : option json :=
+  jupd None ps (jclear_field name) j.
+
+(* overwrite the atom at the path, creating what is missing (LookupCreate(ScalarNode) + FieldSetter{Value}) *)
+Definition jput_scalar (ps : list part) (v : json) (j : json) : option json :=
+  jupd (Some KScalar) ps (fun x => match x with JAtom _ _ _ => Some v | _ => None end) j.
